@@ -161,6 +161,18 @@ class ExprMixin:
         st.set_arr('L_len', z3.Store(h.arr['L_len'], l, n + 1))
         st.set_arr('L_bag', z3.Store(h.arr['L_bag'], l, z3.Store(h.bagof(l), v, h.bag(l, v) + 1)))
 
+    def box_tuple(self, v: SV, elem: T | None, st: State) -> SV:
+        """a tuple display stored into a container whose element type is a heap-modelled tuple class: allocate the object"""
+        info = self.reg.classes.get(elem.cls) if elem is not None and elem.kind == 'obj' else None
+        flds = getattr(info, 'tuple_fields', None) if info is not None else None
+        if not flds or len(flds) != len(v.elts):
+            raise Unsupported('tuple stored into a container without a tuple element class')
+        a = st.alloc_addr(class_id(elem.cls))
+        o = sv_ref(a, Obj(elem.cls))
+        for f, x in zip(flds, v.elts):
+            self.set_attr(o, f, x, st)
+        return o
+
     def list_extend(self, l, m, st: State):
         h = st.h
         n, k = h.len(l), h.len(m)
@@ -224,8 +236,12 @@ class ExprMixin:
         st.set_arr('D_size', z3.Store(st.h.arr['D_size'], a, z3.IntVal(0)))
         return sv_ref(a, Dict(key, elem))
 
-    def dict_set(self, d, k_sv: SV, v_sv: SV, st: State):
+    def dict_set(self, d, k_sv: SV, v_sv: SV, st: State, own=False):
         k, v = to_val(k_sv), to_val(v_sv)
+        if own and v_sv.kind == 'ref':
+            # a container stored as the value of a schema-typed dict of containers becomes owned by that dict
+            st.set_arr('own_obj', z3.Store(st.h.arr['own_obj'], v_sv.t, d))
+            st.set_arr('own_fld', z3.Store(st.h.arr['own_fld'], v_sv.t, z3.IntVal(field_id('<dict value>'))))
         h = st.h
         had = h.has(d, k)
         n = h.size(d)
@@ -370,6 +386,14 @@ class ExprMixin:
         if isinstance(e.value, ast.Name) and e.value.id not in st.locals and e.value.id in self.reg.class_consts \
                 and e.attr in self.reg.class_consts[e.value.id]:
             return self.reg.class_consts[e.value.id][e.attr]
+        if e.attr == '__name__' and isinstance(e.value, ast.Attribute) and e.value.attr == '__class__':
+            # type(x).__name__ of an object of a library-generated class: a string field of the assumed object model
+            o = self.ev(e.value.value, st)
+            cls = o.cls if o.kind == 'ref' else (o.ty.cls if o.ty is not None and o.ty.kind == 'obj' else None)
+            info = self.reg.classes.get(cls) if cls else None
+            if info is not None and getattr(info, 'class_name_field', None):
+                return self.get_attr(o, info.class_name_field, st)
+            raise Unsupported('__class__.__name__ of %s' % cls)
         o = self.ev(e.value, st)
         return self.get_attr(o, e.attr, st)
 
@@ -417,6 +441,16 @@ class ExprMixin:
         if o.kind == 'val' and o.ty is not None and o.ty.kind in ('dict', 'list'):
             a = self.as_ref(o, st, 'subscript')
             o = sv_ref(a, NonOpt(o.ty))
+        tcls = o.cls if o.kind == 'ref' else (o.ty.cls if o.ty is not None and o.ty.kind == 'obj' else None)
+        tinfo = self.reg.classes.get(tcls) if tcls else None
+        if tinfo is not None and getattr(tinfo, 'tuple_fields', None):
+            # heap-modelled tuple: constant index -> field
+            if k.kind == 'int' and z3.is_int_value(z3.simplify(k.t)):
+                i = z3.simplify(k.t).as_long()
+                if o.kind == 'val':
+                    o = sv_ref(self.as_ref(o, st, 'subscript'), Obj(tcls))
+                return self.get_attr(o, tinfo.tuple_fields[i], st)
+            raise Unsupported('tuple index')
         if o.kind == 'val' and (o.ty is None or o.ty.kind == 'val') and k.kind == 'str':
             # dynamically typed container subscripted by a string: must be a dict (anything else: TypeError exit)
             self.side_raise(st, 'TypeError', z3.Not(z3.And(is_VRef(o.t), st.h.cls(v_a(o.t)) == CLS_DICT)), 'subscript on non-dict')
